@@ -198,3 +198,63 @@ func zzC19Run(withRaw bool, total int) {
 	}
 	zzverif.Reach("end")
 }
+
+// ---- flushing completed nodes: Commit against a writer that can fail ----
+
+type zzC19Putter struct {
+	failAt  int // refuse the failAt-th Put (0-based) once; -1 = never
+	puts    int
+	written []common.Hash
+}
+
+func (p *zzC19Putter) Put(key, value []byte) error {
+	n := p.puts
+	p.puts++
+	if n == p.failAt {
+		return errors.New("disk full")
+	}
+	var h common.Hash
+	copy(h[:], key)
+	p.written = append(p.written, h)
+	return nil
+}
+
+// zzH_C19_commit: three completed nodes wait in the flush list (children first).  The writer
+// refuses any one Put once; the caller retries Commit.  At every moment the destination holds
+// a children-first prefix of the completion order, and after the successful Commit it holds
+// every completed node - none is dropped because its write was refused.
+func zzH_C19_commit() {
+	s := NewSync(zzC19Hash(1), zzC19DB{}, nil)
+	order := []common.Hash{zzC19Hash(3), zzC19Hash(2), zzC19Hash(1)}
+	for _, h := range order {
+		s.membatch.batch[h] = []byte{h[0]}
+		s.membatch.order = append(s.membatch.order, h)
+	}
+	p := &zzC19Putter{failAt: zzverif.Choose("refusedWrite", 4) - 1}
+	n, err := s.Commit(p)
+	if p.failAt >= 0 {
+		zzverif.Assert(err != nil && n == p.failAt, "a refused write is reported with the number of entries written before it")
+		zzverif.Reach("refused")
+		n2, err2 := s.Commit(p) // the caller retries
+		zzverif.Assert(err2 == nil && n2 >= 0, "the retried flush succeeds")
+	} else {
+		zzverif.Assert(err == nil && n == 3, "a flush to a working writer writes everything")
+	}
+	// every prefix of the write sequence is children-first: position of a node's first write
+	first := func(h common.Hash) int {
+		for i, w := range p.written {
+			if w == h {
+				return i
+			}
+		}
+		return -1
+	}
+	for i, h := range order {
+		zzverif.Assert(first(h) >= 0, "every completed node reaches the destination, also the one whose write was refused")
+		if i > 0 {
+			zzverif.Assert(first(order[i-1]) >= 0 && first(order[i-1]) < first(h), "nodes reach the destination in completion order (children first)")
+		}
+	}
+	zzverif.Assert(len(s.membatch.order) == 0 && len(s.membatch.batch) == 0, "a successful flush empties the flush list")
+	zzverif.Reach("end")
+}
